@@ -126,7 +126,22 @@ def check_submit_wrappers(ck: Checker, rid: str):
     mod = ck.repo.module(STREAMER)
     # Parmapper.__iter__._work : executor.submit(self._func, x, ..., **kwargs)
     for qual, style in (('Parmapper.__iter__._work', 'submit'), ('ParmapperAsync.__iter__.func', 'threadsafe')):
+        if not mod.has_func(qual):
+            # the wrapper is no longer a closure of this pass: find what is handed to fifo_stream instead
+            itq = qual.rsplit('.', 1)[0]
+            itf = mod.func(itq)
+            calls = [n for n in walk_shallow_func(itf.node) if isinstance(n, ast.Call) and dotted(n.func) == 'fifo_stream' and len(n.args) >= 2]
+            ck.need(calls, f'{itf.key}: no call of fifo_stream with a submit wrapper')
+            w = calls[0].args[1]
+            d = dotted(w) or norm_text(w)
+            ck.ob(rid, itf, calls[0], False, f'the submit wrapper handed to fifo_stream is `{d}`, not a function of this pass: what it submits to (executor / event loop) lives on the streamlet object and is shared by every pass over the same stream — ending one pass shuts down the pool another, overlapping pass is still feeding (`RuntimeError: cannot schedule new futures after shutdown` after a prefix of its outputs)')
+            continue
         f = mod.func(qual)
+        # ...and it submits to an executor / loop that belongs to this pass (a local of __iter__), not to state kept on self
+        recv_self = [n for n in walk_shallow_func(f.node) if isinstance(n, ast.Call) and method_of(n)[1] in ('submit', 'run_coroutine_threadsafe') and method_of(n)[0] is not None and (dotted(method_of(n)[0]) or '').startswith('self.')]
+        kw_self = [k for n in walk_shallow_func(f.node) if isinstance(n, ast.Call) and (dotted(n.func) or '').endswith('run_coroutine_threadsafe') for k in n.keywords if k.arg == 'loop' and (dotted(k.value) or '').startswith('self.')]
+        if recv_self or kw_self:
+            ck.ob(rid, f, (recv_self or [None])[0] or f.node, False, 'the wrapper submits to an executor / loop stored on the streamlet object: overlapping passes over one stream share (and shut down) each other\'s pool')
         a = f.node.args
         pos = [x.arg for x in a.posonlyargs + a.args]
         kwname = a.kwarg.arg if a.kwarg else None
